@@ -6,7 +6,9 @@ import json
 PLANS = {
     "C01": {"profiles": ["c01_faultfree", "c01_lossy"], "quick": 6000, "thorough": 120000},
     "C03": {"profiles": ["c03_gc_twin"], "quick": 800, "thorough": 40000},
-    "C04": {"profiles": ["c04_sequential"], "quick": 5000, "thorough": 100000},
+    "C04": {"profiles": ["c04_sequential", "c04_sequential", "c04_parallel"], "quick": 5400, "thorough": 100000},
+    "C16": {"profiles": ["c16_parallel"], "quick": 10000, "thorough": 300000},
+    "C17": {"profiles": ["c17_pubsub"], "quick": 20000, "thorough": 1000000},
     "C05": {"profiles": ["c05_fault_sweep"], "quick": 3000, "thorough": 100000},
     "C18": {"profiles": ["c18_yson"], "quick": 1200, "thorough": 80000},
     "C10": {"profiles": ["c10_compaction"], "quick": 3000, "thorough": 60000},
@@ -30,6 +32,7 @@ REAL_STUB = {
         "Connect handlers of the Yorkie/Cluster services with all interceptors, invoked through ServeHTTP",
         "packs (PushPull, snapshots, compaction), clients, documents, housekeeping task bodies",
         "memory.DB (go-memdb) behind the generated fault/park proxy; named lockers, snapshot LRU cache, background",
+        "step-level engine (C16, C17, c04_parallel): same real code; pkg/locker methods wrapped and the sync mutexes of pubsub/cmap turned into TryLock-spin-yield through a go build overlay (nothing written to /repo, behaviour unchanged when the hooks are nil)",
     ],
     "stub": [
         "TCP/HTTP2/TLS (in-process RoundTripper = simulated network)",
@@ -45,7 +48,8 @@ def plan_for(prop, tier):
         return None
     out = {"profiles": list(p["profiles"]), "runs": p[tier], "chunk": p.get("chunk", 250)}
     out["budget_s"] = p.get("budget_" + tier, 150 if tier == "quick" else 1800)
-    out["min_budget_s"] = 20 if tier == "quick" else 120
+    out["min_budget_s"] = 300  # backstop only; the bound that counts is the number of candidates
+    out["min_candidates"] = 1000 if tier == "quick" else 3000
     for k in ("gomaxprocs", "workers", "ulimit_kb"):
         if k in p:
             out[k] = p[k]
@@ -108,7 +112,7 @@ def evidence(prop, tier, seed, plan, results, infra, unlisted, known_hits, wall,
         },
         "assumptions": [
             "memdb stands in for MongoDB; only what reached storage survives a simulated crash",
-            "one RPC is one atomic step in the message-level engine (interleavings inside a request belong to the step-level engine)",
+            "one RPC is one atomic step in the message-level engine; in the step-level engine (profiles *_parallel, c17_pubsub) requests interleave at storage calls, named-lock operations and instrumented mutexes, and are atomic in between",
             "sampling, not enumeration: a clean batch is evidence, not proof",
         ],
     }
@@ -120,7 +124,7 @@ META = {
     "C01": {"level": "Seeded exploration of complete multi-client editing sessions (2-5 real clients against the real server, 20-200 steps, whole public editing alphabet, offline stretches, re-attach, rejoin, vanish) with and without message faults (lost request/response, delayed stale duplicates). Oracles: byte-identical Marshal() of all replicas and of the server's rebuilt document after bounded quiescence (3 rounds), equal content whenever two replicas hold equal version vectors, no un-faulted call fails, clone == root.", "note": _common},
     "C02": {"level": "Same sessions under snapshot thresholds/intervals {1,2,3,5,10,500}, cache size 1/10, purges, late attachers, starved/lazy/eager background snapshot writer, server restarts, lost messages. Oracles: snapshot-fed == change-fed replicas after quiescence and at equal vectors, server rebuild at head and at an earlier seq with warm cache == after purge == replicas with the same vector; further edits on snapshot-fed replicas keep converging.", "note": _common},
     "C03": {"level": "Delete-heavy sessions with GC on, long offline stretches, housekeeping deactivation after clock jumps; every run is executed a second time from its recorded step list in a world with GC disabled everywhere: step outcomes and every replica's visible content at quiescence must be equal (GC twin), no sync / rebuild may fail.", "note": _common + "; three GC findings of the pinned tree are listed as known"},
-    "C04": {"level": "Sequential schedules only (message-level engine): every pull is compared on the wire with the stored log: exactly the foreign changes of (request checkpoint, response checkpoint], in order, once, no echo of own changes, checkpoints monotone and <= head; log shape serverSeq 1..N and (actor, clientSeq) unique per attachment; under lost/duplicated/stale requests and push-only syncs. True parallel interleavings inside a request (the other half of the quantifier) are NOT explored: the step-level engine was not finished.", "note": _common + "; seeded change C04-2 (needs two overlapping requests of one client) is out of reach"},
+    "C04": {"level": "Both halves of the quantifier. Sequential schedules (message-level engine): every pull is compared on the wire with the stored log: exactly the foreign changes of (request checkpoint, response checkpoint], in order, once, no echo of own changes, checkpoints monotone and <= head; log shape serverSeq 1..N and (actor, clientSeq) unique per attachment; under lost/duplicated/stale requests and push-only syncs. Parallel schedules (step-level engine, profile c04_parallel): all attached clients sync / push-only sync / detach+re-attach at the same time, some requests are delivered twice with both copies in flight, compaction attempts run alongside; requests interleave at every storage call and every named-lock operation under a seeded scheduler; the same wire oracle (own changes recognised by author), conservation of every issued increment/key/token, log shape and convergence are evaluated on the result.", "note": _common + "; inside the step-level engine a request is atomic between two yield points (storage calls, named-lock operations): interleavings of pure in-memory code are not explored"},
     "C05": {"category": "fault_enumeration", "level": "For a chosen pushing sync of each generated session exactly one fault is placed, enumerated by run index over every storage call that request makes (the call list is learnt from the tree at run time) x {error before, error after, crash before, crash after} plus {request lost, response lost, stale duplicate}; the client retries the identical pack, optionally after further edits. Oracles: conservation (every issued increment counted once, every key present, every appended token exactly once in order on every replica), each (actor, clientSeq) stored once, serverSeq gap-free, replicas and server converge, the un-faulted retry succeeds.", "note": _common + "; the window between CreateChangeInfos and UpdateClientInfoAfterPushPull is a known finding (upstream's own skipped test)"},
     "C06": {"level": "Wire monitor on every pushed change and every response of C01/C03-style sessions (plus GC-free documents with wire opt-out attachments): vv[self]==lamport, vv covers and lamport exceeds everything the replica had applied before, author timestamps grow, (lamport, actor) unique; every minimum vector handed out is compared, actor by actor, with the REAL document of every client the server still counts as attached (including vanished ones).", "note": _common + "; presence-only changes carry no clock by design and are exempt"},
     "C08": {"level": "Sessions in which Update callbacks fail after j<=k edits (returned error, panic), exceed a size limit or break schema rules, interleaved with remote packs, snapshots and GC: content, pending changes, checkpoint, version vector and undo history are compared before/after every failed Update; Root() == Marshal() after every step.", "note": _common + "; undo/redo inside these sessions is left to C14"},
@@ -128,6 +132,8 @@ META = {
     "C11": {"level": "Raw protocol clients (generated Connect client, hand-built packs from real Documents) issue Activate/Attach/PushPull/Detach/Remove/Deactivate in any state for 2 clients x 2 documents; a reference state machine written from docs/design/document-client-lifecycle.md predicts accept/reject; rejected calls must not grow any log; after detach/deactivate no stored version vector may lower the minimum; removed documents answer with the removed flag and store nothing.", "note": _common + "; calls on a document key after one of its documents was removed are only checked for 'stores nothing' (the document does not specify them)"},
     "C12": {"level": "Presence-heavy sessions with snapshot pulls, re-attach, rejoin, vanish, housekeeping deactivation, on presence-enabled and presenceless documents, with late attachers that disagree with the document's setting: AllPresences() equal on all replicas and keyed by exactly the clients the server counts as attached; presenceless: no presence in any stored row, response or snapshot.", "note": _common},
     "C14": {"level": "Local sessions of one client (the property's quantifier: no remote changes) with single-edit Updates from the content alphabet plus approximate kinds, random well-nested Undo/Redo: a content stack predicts the canonical content (text as attribute runs, trees as XML) after every Undo/Redo of an exact kind; Undo/Redo never fail; clone == root; the final synchronisation succeeds.", "note": _common + "; five undo defects of the pinned tree are listed as known; undo after synchronisation/GC is outside this check (see C15)"},
+    "C16": {"level": "Step-level engine: after a sequential set-up all clients talk to the real server AT THE SAME TIME (1-3 syncs each, push-only syncs, detach+re-attach, explicit deactivation, duplicated requests with both copies in flight) together with admin compaction, the housekeeping deactivation body after a 25 h silence and the server's own background goroutines (snapshot writer). Every task runs on its own goroutine; exactly one runs at a time and gives control back at every storage call, every pkg/locker operation and every spin on an instrumented mutex (build overlay, nothing written to /repo); a seeded scheduler picks who continues. The scheduler keeps a model of the named RW locks (writer, readers, announced writers = Go's writer preference) and only resumes a task whose lock request the model admits: a state with unfinished tasks and nobody admissible is a DEADLOCK, reported with the wait-for relation; every acquisition is compared with the documented order doc -> pull -> attachment -> push (lock-order oracle); every request must return; afterwards the C01/C04/C05 oracles (convergence incl. server rebuild, conservation, log shape, clone == root, no un-faulted failure) are evaluated. A death of the process by the Go runtime (fatal error: unlock of unlocked mutex, concurrent map access, panic on a server goroutine) is reproduced alone, minimised out of process and reported as a violation.", "note": _common + "; NOT covered: the race-detector half of the property (the scheduler's hand-off orders all memory accesses, so unsynchronised accesses between two yield points are invisible - seeded change C16-1 is out of reach), watch streams inside the same sections (C17 drives pubsub separately)"},
+    "C17": {"level": "The real server/backend/pubsub package (PubSub, Subscriptions, BatchPublisher, cmap) under the step-level engine: up to 4 subscribers and 3 publishers on one document key Subscribe / Publish / Unsubscribe concurrently; the package's mutexes are rewritten in the build overlay into TryLock-spin-yield, so a seeded scheduler decides every interleaving at every mutex acquisition; simulated time (batch window, publish time-out) passes only when the scheduler says so. Consumers are prompt (drain after every step) or stalled. Oracles over the recorded history (events stamped with the scheduler's step number): a subscriber whose Subscribe returned before Publish was invoked and whose Unsubscribe was invoked after Publish returned - and that drains - receives an event of that publisher or a closed channel within a bounded linger (8 simulated seconds); nothing is received after Unsubscribe returned; the subscription map is empty once all have unsubscribed; no panic (send on closed channel) - also on the publisher's own goroutine (process death is reproduced and reported).", "note": "the pubsub package runs alone (no RPC layer, no WatchDocument stream); channel operations are not yield points (only mutex acquisitions, timers and task starts are); sampling, not proof"},
     "C19": {"level": "The five pair matrices (ranges x op1 x op2) are extracted at build time from test/complex/tree_concurrency_test.go of the CURRENT tree (data and op.run methods are upstream's, the runner is the simulator): every one of the 1592 cells x both sync orders is one simulated run with two change-fed clients and a third client fed by snapshot that edits on top of it; oracles: ToXML and Marshal equal on all three and on the server's rebuild, clone == root, no step fails. The quick tier already sweeps the whole matrix (3184 runs, ~20 s).", "note": _common + "; exhaustive over the declared matrix, exploration beyond it is C01's job", "technique": "deterministic simulation, exhaustive sweep of a finite matrix of two-client schedules"},
     "C20": {"level": "(a) the real mongo.ChangeStore is driven through the call protocol of mongo/client.go (ReplaceOrInsert+ExpandRange by writers, EnsureChanges+ChangesInRange by readers, eviction, fetch errors, changes stored by other nodes) against a ground-truth table with presence-only holes: served range == table range, the fetcher is never asked for a covered sequence number; (b) C02-style sessions with frequent rebuild steps: BuildInternalDocForServerSeq(s) at the head and at earlier points with the cache as it is == after Purge() == replicas holding the same vector, interleaved with pushes, purges, tiny caches, restarts.", "note": _common + "; the Mongo collection and the glue in mongo/client.go are a stub (a change there is not seen); pkg/cache LRU expiry is not covered"},
     "C18": {"level": "At sync points and at quiescence every replica's document goes through FromCRDT -> Marshal -> Unmarshal -> SetYSON into a fresh Document -> FromCRDT; generated YSON literals of every element type enter through SetYSONElement/WithInitialRoot; a revision created mid-run is restored at the end and must give every replica the recorded content; after all clients detached the real compaction must succeed and keep the content.", "note": _common},
@@ -138,6 +144,4 @@ NOT_CLAIMED = {
     "C09": "not claimed: the lossless half is exercised implicitly by every other check (every message crosses the real encoders; an encoder that drops something shows up as divergence), but the dedicated re-encode/shadow-replica oracles and the byte-corruption fault kind were not built in this session",
     "C13": "not claimed: the intruder actor (all procedures from the service descriptors x credentials x foreign ids, victim state byte-identical) was not built in this session; the read-only finding of the design phase (yorkieServer.GetRevision does not compare the revision's project/document) is recorded in DESIGN.md section 9 but not demonstrated by a check",
     "C07": "not claimed: the sequential reference models (string/slice/map/XML) were not built in the time available; a partial canonical-content model exists only inside the C14 oracle",
-    "C16": "not claimed: needs the step-level engine (interleavings inside requests, lock model, race oracle) described in DESIGN.md section 3.5-3.7; it was prototyped during design (deadlock in cluster DetachDocument demonstrated) but not rebuilt in this session",
-    "C17": "not claimed: needs the step-level engine over pkg pubsub (interleavings at mutex/channel operations); not built in this session",
 }
